@@ -24,7 +24,9 @@ import (
 // The values must not contain cycles.
 // See https://json-schema.org/draft/2020-12/json-schema-core#section-4.2.2.
 // It behaves like reflect.DeepEqual, except that numbers are compared according
-// to mathematical equality.
+// to mathematical equality, and that the Go representation of a JSON value does
+// not matter: pointers and interfaces are stepped through, Go arrays and slices
+// both denote JSON arrays, and maps may have any string key type.
 func Equal(x, y any) bool {
 	return equalValue(reflect.ValueOf(x), reflect.ValueOf(y))
 }
@@ -32,6 +34,15 @@ func Equal(x, y any) bool {
 func equalValue(x, y reflect.Value) bool {
 	// Copied from src/reflect/deepequal.go, omitting the visited check (because JSON
 	// values are trees).
+
+	// Interfaces and pointers do not change the JSON value; step through them,
+	// as validation and hashValue do.
+	for x.Kind() == reflect.Interface || x.Kind() == reflect.Pointer {
+		x = x.Elem()
+	}
+	for y.Kind() == reflect.Interface || y.Kind() == reflect.Pointer {
+		y = y.Elem()
+	}
 	if !x.IsValid() || !y.IsValid() {
 		return x.IsValid() == y.IsValid()
 	}
@@ -39,53 +50,42 @@ func equalValue(x, y reflect.Value) bool {
 	// Treat numbers specially.
 	rx, ok1 := jsonNumber(x)
 	ry, ok2 := jsonNumber(y)
-	if ok1 && ok2 {
-		return rx.Cmp(ry) == 0
+	if ok1 || ok2 {
+		// A number is equal only to a number. (A json.Number has kind string.)
+		return ok1 && ok2 && rx.Cmp(ry) == 0
+	}
+	// Go arrays and slices both represent JSON arrays.
+	isList := func(v reflect.Value) bool { return v.Kind() == reflect.Array || v.Kind() == reflect.Slice }
+	if isList(x) && isList(y) {
+		if x.Kind() == reflect.Slice && y.Kind() == reflect.Slice {
+			if x.IsNil() != y.IsNil() {
+				return false
+			}
+			if x.Len() != y.Len() {
+				return false
+			}
+			if x.UnsafePointer() == y.UnsafePointer() {
+				return true
+			}
+			// Special case for []byte, which is common.
+			if x.Type().Elem().Kind() == reflect.Uint8 && x.Type() == y.Type() {
+				return bytes.Equal(x.Bytes(), y.Bytes())
+			}
+		}
+		if x.Len() != y.Len() {
+			return false
+		}
+		for i := range x.Len() {
+			if !equalValue(x.Index(i), y.Index(i)) {
+				return false
+			}
+		}
+		return true
 	}
 	if x.Kind() != y.Kind() {
 		return false
 	}
 	switch x.Kind() {
-	case reflect.Array:
-		if x.Len() != y.Len() {
-			return false
-		}
-		for i := range x.Len() {
-			if !equalValue(x.Index(i), y.Index(i)) {
-				return false
-			}
-		}
-		return true
-	case reflect.Slice:
-		if x.IsNil() != y.IsNil() {
-			return false
-		}
-		if x.Len() != y.Len() {
-			return false
-		}
-		if x.UnsafePointer() == y.UnsafePointer() {
-			return true
-		}
-		// Special case for []byte, which is common.
-		if x.Type().Elem().Kind() == reflect.Uint8 && x.Type() == y.Type() {
-			return bytes.Equal(x.Bytes(), y.Bytes())
-		}
-		for i := range x.Len() {
-			if !equalValue(x.Index(i), y.Index(i)) {
-				return false
-			}
-		}
-		return true
-	case reflect.Interface:
-		if x.IsNil() || y.IsNil() {
-			return x.IsNil() == y.IsNil()
-		}
-		return equalValue(x.Elem(), y.Elem())
-	case reflect.Pointer:
-		if x.UnsafePointer() == y.UnsafePointer() {
-			return true
-		}
-		return equalValue(x.Elem(), y.Elem())
 	case reflect.Struct:
 		t := x.Type()
 		if t != y.Type() {
@@ -114,7 +114,15 @@ func equalValue(x, y reflect.Value) bool {
 		iter := x.MapRange()
 		for iter.Next() {
 			vx := iter.Value()
-			vy := y.MapIndex(iter.Key())
+			key := iter.Key()
+			// The key types may be different named types of the same kind.
+			if kt := y.Type().Key(); key.Type() != kt {
+				if key.Kind() != kt.Kind() || !key.CanConvert(kt) {
+					return false
+				}
+				key = key.Convert(kt)
+			}
+			vy := y.MapIndex(key)
 			if !vy.IsValid() || !equalValue(vx, vy) {
 				return false
 			}
@@ -133,6 +141,7 @@ func equalValue(x, y reflect.Value) bool {
 	case reflect.Bool:
 		return x.Bool() == y.Bool()
 	// Ints, uints and floats handled in jsonNumber, at top of function.
+	// Interfaces and pointers were stepped through at top of function.
 	default:
 		panic(fmt.Sprintf("unsupported kind: %s", x.Kind()))
 	}
